@@ -206,8 +206,12 @@ def main(argv=None):
 
 def report(prop, spec, args, seed, ded, bres, findings, t0):
     from pyvc import evidence
-    os.makedirs(os.path.join(ROOT, "evidence"), exist_ok=True)
-    rdir = os.path.join(ROOT, "replays", prop)
+    # runs against another tree (CLIKIT_REPO=<scratch copy>: self-tests, seeded changes) must not overwrite the evidence
+    # and replay files of /repo itself
+    scratch = os.path.realpath(REPO) != "/repo"
+    OUT = os.path.join(ROOT, ".cache", "scratch_runs") if scratch else ROOT
+    os.makedirs(os.path.join(OUT, "evidence"), exist_ok=True)
+    rdir = os.path.join(OUT, "replays", prop)
     os.makedirs(rdir, exist_ok=True)
     violations = []  # (replay path, suffix)
     known_printed = []
@@ -326,10 +330,10 @@ def report(prop, spec, args, seed, ded, bres, findings, t0):
     wall = time.time() - t0
     ev = evidence.build(prop, spec, args.tier, seed, ded, per_obl, n_obl, n_dis, undecided, bchecks, known_printed,
                         violations, errors, wall)
-    with open(os.path.join(ROOT, "evidence", prop + ".json"), "w") as f:
+    with open(os.path.join(OUT, "evidence", prop + ".json"), "w") as f:
         json.dump(ev, f, indent=1, default=repr)
 
-    if args.relock and not violations and not errors:
+    if args.relock and not violations and not errors and not scratch:
         ledger[prop] = {o["name"]: o["status"] for o in per_obl if o["expect"] != "sat"}
         with open(ledger_path, "w") as f:
             json.dump(ledger, f, indent=1, sort_keys=True)
